@@ -6,6 +6,16 @@ import gen
 NS = 1000000000
 
 
+def to_ns(x, exact=False):
+    """Seconds (float) -> integer nanoseconds. `exact`: by rational arithmetic on the double's exact value (x * 1e9 in floating
+    point is only exact up to 2^53 ns = about 104 days; P1 / GPS-like times of 10^9 s need the exact form)."""
+    x = float(x)
+    if exact:
+        from fractions import Fraction
+        return int(round(Fraction(x) * NS))
+    return int(round(x * NS))
+
+
 def timed_payloads():
     """(type, payload-builder(t seconds float)) for a few classes that carry P1 time, and untimed ones."""
     from fusion_engine_client.messages import PoseMessage, GNSSInfoMessage, EventNotificationMessage, VersionInfoMessage, Timestamp
@@ -32,8 +42,9 @@ def timed_payloads():
 
 
 def make_log(rng, n, junk=True, sources=(0,), untimed_first=None, t_start=None, step_choices=(0, 0.25, 0.5, 1, 1, 2, 3.75),
-             wrappers=True):
-    """A log of n messages: timed (non-decreasing P1 times, multiples of 0.25 s), untimed, unknown types."""
+             wrappers=True, t_max=None):
+    """A log of n messages: timed (non-decreasing P1 times, multiples of 0.25 s), untimed, unknown types.
+    t_max: times stop advancing there (for logs that start just below the largest representable P1 time)."""
     timed, untimed = timed_payloads()
     t = t_start if t_start is not None else rng.choice([0.0, 1.0, 2.5, 10.0, 100.25])
     parts = []
@@ -46,6 +57,8 @@ def make_log(rng, n, junk=True, sources=(0,), untimed_first=None, t_start=None, 
         if k < 0.55:
             ty, p, v = rng.choice(timed)(t)
             t += rng.choice(step_choices)
+            if t_max is not None and t > t_max:
+                t = t_max
         elif k < 0.6:   # timed class with an invalid (NaN) P1 time
             ty, p, v = rng.choice(timed)(float('nan'))
         elif k < 0.9:
@@ -64,8 +77,9 @@ def make_log(rng, n, junk=True, sources=(0,), untimed_first=None, t_start=None, 
     return b''.join(parts)
 
 
-def unfiltered(path):
-    """The unfiltered read of the real reader: list of dicts (offset, size, type, src, timeNs)."""
+def unfiltered(path, exact=False):
+    """The unfiltered read of the real reader: list of dicts (offset, size, type, src, timeNs).
+    exact: see to_ns()."""
     from fusion_engine_client.parsers import MixedLogReader
     r = MixedLogReader(path, num_threads=1, return_header=True, return_payload=True, return_bytes=True, return_offset=True,
                        return_message_index=True)
@@ -76,7 +90,7 @@ def unfiltered(path):
             try:
                 pt = payload.get_p1_time()
                 if pt is not None and float(pt) == float(pt):
-                    t = int(round(float(pt) * NS))
+                    t = to_ns(pt, exact)
             except Exception:
                 t = None
         out.append({'offset': int(off), 'size': len(data), 'type': int(header.message_type), 'src': int(header.source_identifier),
@@ -90,8 +104,8 @@ def log_text(msgs):
                     for m in msgs) or '-'
 
 
-def range_text(tr, sep=','):
-    """A real TimeRange object (after its constructor's normalisation) -> model text."""
+def range_text(tr, sep=',', exact=False):
+    """A real TimeRange object (after its constructor's normalisation) -> model text. exact: see to_ns()."""
     if tr is None:
         return '-'
 
@@ -101,5 +115,5 @@ def range_text(tr, sep=','):
         x = float(x)
         if x != x:
             return 'n'
-        return str(int(round(x * NS)))
+        return str(to_ns(x, exact))
     return sep.join(['a' if tr.absolute else 'r', f(tr.start), f(tr.end), f(tr.p1_t0)])
